@@ -48,6 +48,11 @@ var xpathExprs = []exprSpec{
 	{"concat(x:foo)", false, []string{"x"}},
 	{"zz:foo = 1", true, []string{"zz"}},
 	{"x:foo and zz:bar", true, []string{"x", "zz"}},
+	// (appended: replays refer to the table by index) the prefix of a namespace wildcard is a prefix like any other
+	{"zz:* = 1", true, []string{"zz"}},
+	{"count(x:*) > 0", true, []string{"x"}},
+	{"../x:*[. = 'a'] or y:*", true, []string{"x", "y"}},
+	{"not(x:*)", true, []string{"x"}},
 }
 
 var pathExprs = []exprSpec{
